@@ -206,6 +206,7 @@ class SessionResult:
         self.lines = []          # merged trace for TLC
         self.script = []
         self.nreq = self.nedit = self.batch = 0
+        self.trace_cause = {}    # doc -> why the trace oracle says its last published diagnostics are not final
         self.hung = False
 
 
@@ -329,8 +330,9 @@ def run_session(base, sid, seed, two_docs, rounds, mutate_trace=None):
                 if before is None or after is None:
                     fail({"what": "diag_not_final", "cause": "never_published"}, {"doc": d.name})
                 elif diag_key(before, old_lines[d.name]) != diag_key(after, old_lines[d.name]):
-                    cause = "cancelled_empty" if not before["diagnostics"] else "content"
-                    fail({"what": "diag_not_final", "cause": cause, "oracle": "content"},
+                    # the cause is filled in from the trace oracle (provenance of the last Publish) after validation;
+                    # a content mismatch the trace cannot explain stays "content"
+                    fail({"what": "diag_not_final", "cause": "content", "oracle": "content"},
                          {"doc": d.name, "last_published": len(before["diagnostics"]), "for_final_text": len(after["diagnostics"])})
         rc = sess.close()
         if ok and rc != 0:
@@ -471,7 +473,7 @@ def merge(res, docs, by_uri, evs, responses, quiesce_marks, sess):
             out.append({"ev": "ApplyEnd"})
         elif ev in ("DiagEmit", "Publish"):
             d = by_uri.get(e["uri"])
-            out.append({"ev": ev, "d": d.name if d else "?", "n": e["n"]})
+            out.append({"ev": ev, "d": d.name if d else "?", "n": e["n"], "t": e.get("task", 0)})
     while marks:
         quiesce_line(out)
     # a cancelled query noticed the flag between ApplyBegin and ApplyEnd of the change that waited for its snapshot:
@@ -569,6 +571,7 @@ def validate(out, results, name, report=True):
             for dn, st in v["docs"].items():
                 if st["open"] and (st["c"] != "ok" or st["pubver"] != st["dbver"]):
                     cause = "cancelled_empty" if st["c"] == "cancelled" else "stale"
+                    r.trace_cause[dn] = cause
                     out.report({"what": "diag_not_final", "cause": cause, "oracle": "trace"}, dict(base, doc=dn, state=st))
     return verdict, bad_line
 
@@ -727,6 +730,8 @@ def run(out, tier, seed):
             k += 1
         for r in results:                      # what the driver saw itself (hangs, divergence, diagnostics content)
             for f, dt in r.problems:
+                if f.get("oracle") == "content" and dt.get("doc") in r.trace_cause:
+                    f = dict(f, cause=r.trace_cause[dt["doc"]])
                 out.report(f, dt)
         tot["lines"] += sum(len(r.lines) for r in results)
         tot["req"] += sum(r.nreq for r in results)
@@ -773,8 +778,10 @@ def replay(out, path):
     base = vlib.workdir("c16-replay")
     r = run_session(base, d["sid"], d["seed"], bool(d.get("two_docs")), int(d.get("rounds") or 8))
     r.two_docs, r.rounds = d.get("two_docs"), d.get("rounds")
-    for f, dt in r.problems:
-        out.report(f, dt)
-    if not r.hung and len(r.lines) > 1:
+    if len(r.lines) > 1:
         validate(out, [r], "replay")
+    for f, dt in r.problems:
+        if f.get("oracle") == "content" and dt.get("doc") in r.trace_cause:
+            f = dict(f, cause=r.trace_cause[dt["doc"]])
+        out.report(f, dt)
     out.cov["traces_validated_against_impl"] += 1
